@@ -492,18 +492,23 @@ func (c *complaints) add(clause, format string, args ...any) {
 
 // BackendReq is a strictly parsed request as received by a backend handler.
 type BackendReq struct {
-	Form         Form
-	Codec        string
-	Compression  string   // declared request compression ("" = none)
-	Accept       []string // advertised response compressions
-	HasTimeout   bool
-	TimeoutRaw   string
-	Path         string
-	Frames       []Frame
-	Msgs         [][]byte // uncompressed, codec-encoded payloads, in order
-	MsgWasComp   []bool
-	MsgBad       []bool // flagged/declared compressed but not decompressible: unreadable
-	GetQuery     url.Values
+	Form        Form
+	Codec       string
+	Compression string   // declared request compression ("" = none)
+	Accept      []string // advertised response compressions
+	HasTimeout  bool
+	TimeoutRaw  string
+	Path        string
+	Frames      []Frame
+	Msgs        [][]byte // uncompressed, codec-encoded payloads, in order
+	MsgWasComp  []bool
+	MsgBad      []bool // flagged/declared compressed but not decompressible: unreadable
+	GetQuery    url.Values
+	// FlaggedEmpty counts frames that carry the compressed flag over a zero-length payload.
+	// Zero bytes are not a valid stream of any real compression algorithm (grpc-go fails such
+	// a message with "failed to decompress"), but lenient peers read them as an empty message,
+	// so this is not a complaint by itself: checks decide whether the transcoder produced it.
+	FlaggedEmpty int
 	Complaints   []Complaint
 	AppHeaders   http.Header
 	ContentType  string
@@ -688,6 +693,9 @@ func ParseBackendRequest(method string, u *url.URL, h http.Header, contentLength
 			payload := fr.Payload
 			wasComp := fr.Flags&1 != 0
 			bad := false
+			if wasComp && len(payload) == 0 {
+				r.FlaggedEmpty++
+			}
 			if wasComp && len(payload) > 0 { // (an empty payload needs no decompression; peers differ on flagging it)
 				if comp == nil {
 					cs.add("req.envelope.compressed-without-encoding", "frame %d has the compressed flag but no compression is declared", i)
@@ -806,7 +814,7 @@ func (c *ClientReq) Encode() (method, target string, h http.Header, body []byte)
 		}
 		if len(c.Msgs) > 0 {
 			body = c.Msgs[0]
-			if comp != nil && len(body) > 0 {
+			if comp != nil { // (an empty message is compressed too, as real peers do: zero bytes are not a valid compressed stream)
 				body = comp.Compress(body)
 			}
 		}
@@ -994,7 +1002,7 @@ func (s *ServerResp) Encode() *ServerOut {
 		}
 		if s.Compression != "" {
 			out.Header.Set("Content-Encoding", s.Compression)
-			if comp != nil && len(out.Body) > 0 {
+			if comp != nil && len(s.Msgs) > 0 {
 				out.Body = comp.Compress(out.Body)
 			}
 		}
@@ -1098,7 +1106,7 @@ func (s *ServerResp) Encode() *ServerOut {
 		}
 		if s.Compression != "" {
 			out.Header.Set("Content-Encoding", s.Compression)
-			if comp != nil && len(out.Body) > 0 {
+			if comp != nil && len(s.Msgs) > 0 {
 				out.Body = comp.Compress(out.Body)
 			}
 		}
@@ -1111,25 +1119,28 @@ func (s *ServerResp) Encode() *ServerOut {
 
 // ClientResp is a strictly parsed response as received by a client of a given form.
 type ClientResp struct {
-	Form        Form
-	Status      int
-	Codec       string
-	Compression string
-	Accept      []string
-	Msgs        [][]byte // uncompressed codec-encoded payloads
-	MsgWasComp  []bool
-	MsgBad      []bool // declared/flagged compressed but not decompressible: unreadable
-	End         End  // Code 0 = OK
-	EndSeen     int  // number of terminal dispositions found
-	BareHTTP    bool // a plain HTTP error response not in the RPC protocol
-	Meta        http.Header // trailers / end-of-stream metadata (application keys only)
-	AppHeaders  http.Header
-	Complaints  []Complaint
-	ContentType string
+	Form         Form
+	Status       int
+	Codec        string
+	Compression  string
+	Accept       []string
+	Msgs         [][]byte // uncompressed codec-encoded payloads
+	MsgWasComp   []bool
+	MsgBad       []bool      // declared/flagged compressed but not decompressible: unreadable
+	End          End         // Code 0 = OK
+	EndSeen      int         // number of terminal dispositions found
+	FlaggedEmpty int         // see BackendReq.FlaggedEmpty
+	BareHTTP     bool        // a plain HTTP error response not in the RPC protocol
+	Meta         http.Header // trailers / end-of-stream metadata (application keys only)
+	AppHeaders   http.Header
+	Complaints   []Complaint
+	ContentType  string
 }
 
 // OK reports whether the client observed success.
-func (c *ClientResp) OK() bool { return !c.BareHTTP && c.EndSeen > 0 && c.End.Code == 0 && c.End.CodeStr == "" }
+func (c *ClientResp) OK() bool {
+	return !c.BareHTTP && c.EndSeen > 0 && c.End.Code == 0 && c.End.CodeStr == ""
+}
 
 func parseConnectError(raw []byte, cs *complaints, where string) (End, http.Header) {
 	var e End
@@ -1291,6 +1302,9 @@ func ParseClientResponse(form Form, status int, h http.Header, body []byte, trai
 				cs.add("resp.data-after-end", "frame %d (flags %#x, %d bytes) follows the end of the stream", i, fr.Flags, len(fr.Payload))
 			}
 			bad := false
+			if fr.Flags&1 != 0 && len(payload) == 0 && !isEnd {
+				r.FlaggedEmpty++
+			}
 			if fr.Flags&1 != 0 && len(payload) > 0 { // (an empty payload needs no decompression; peers differ on flagging it)
 				if comp == nil {
 					cs.add("resp.envelope.compressed-without-encoding", "frame %d has the compressed flag but no (known) compression is declared", i)
@@ -1530,4 +1544,17 @@ func ParseClientResponse(form Form, status int, h http.Header, body []byte, trai
 		}
 	}
 	return finish()
+}
+
+// CountFlaggedEmpty counts the frames of an enveloped body that carry the compressed flag
+// over a zero-length payload (trailer / end frames excluded).
+func CountFlaggedEmpty(body []byte) int {
+	frames, _ := SplitFrames(body)
+	n := 0
+	for _, fr := range frames {
+		if fr.Flags&1 != 0 && fr.Flags&^1 == 0 && len(fr.Payload) == 0 {
+			n++
+		}
+	}
+	return n
 }
